@@ -376,7 +376,7 @@ impl<const MAX_NUMBER_OF_BUCKETS: usize> FixedSizePoolAllocator<MAX_NUMBER_OF_BU
 
         let allocator = BumpAllocator::new(
             data_ptr,
-            core::mem::size_of_val(new_self.next_free_index.as_ref()),
+            size_of::<Self>() - core::mem::offset_of!(Self, next_free_index),
         );
         unsafe {
             new_self
